@@ -66,9 +66,10 @@ func c18DialErrClass(err error) string {
 	}
 }
 
-func c18Dial(t *testing.T) {
-	r := vrep.New("C18", "dial")
-	defer r.Flush()
+// c18Dial fills and returns its record; the caller flushes it (after the manager part, so that the records appear
+// in the order manager, dial, verifier).
+func c18Dial(t *testing.T) (r *vrep.Result) {
+	r = vrep.New("C18", "dial")
 	names := []string{"cur", "next", "prev", "bogus"}
 	r.Bounds["dialled hash sets"] = "all 15 non-empty subsets of {cur, next, prev, bogus}"
 	r.Bounds["server early-data lists"] = "all 16 subsets of {cur, next, prev, bogus}"
@@ -239,4 +240,5 @@ func c18Dial(t *testing.T) {
 	setList(honest)
 	r.Distinct = int64(len(distinct))
 	r.Note("distinct_nontrivial = distinct (served cert pinned, all dialled hashes confirmed, result class) triples")
+	return r
 }
